@@ -43,6 +43,9 @@ func plan(d *mon.Driver) ([]CaseData, []target, map[string]bool, []string, error
 	combos := make([][2]string, 0, len(contexts)*len(routes))
 	for _, cx := range contexts {
 		for _, rt := range routes {
+			if strings.HasPrefix(cx, "late-") && rt != "ctx" {
+				continue
+			}
 			combos = append(combos, [2]string{cx, rt})
 		}
 	}
@@ -408,6 +411,17 @@ func drive(d *mon.Driver, replay string) int {
 	return d.Finish(d.N(6000, 40000), d.N(2000, 8000))
 }
 
+// listingOp: operations that enumerate the supplied file system (the recording file system also holds
+// the token tree under the worker's directory, so a listing from "/" legitimately names it).
+func listingOp(op string) bool {
+	for _, w := range []string{"read_dir", "walk", "glob", "list"} {
+		if strings.Contains(op, w) {
+			return true
+		}
+	}
+	return false
+}
+
 func describe(c *CaseData) string {
 	main, mod := buildScript(c.Ctx, c.Setup, c.OpSrc)
 	s := fmt.Sprintf("operation %s (%s, %s) context=%s route=%s\nscript:\n%s", c.Op, c.Kind, c.Variant, c.Ctx, c.Route, indent(main))
@@ -445,6 +459,16 @@ func judge(d *mon.Driver, c *CaseData, o *Out, ext []string, called map[string]i
 		for _, v := range visible {
 			if strings.Contains(v, rt) {
 				real = append(real, fmt.Sprintf("real-content: %q", mon.Truncate(v, 200)))
+				break
+			}
+		}
+	}
+	// the worker's real working directory is known to the script only if the script was given it
+	// (abs(...) arguments) or lists the supplied file system from an ancestor of it
+	if needle := strings.TrimPrefix(o.B, "/"); len(needle) > 8 && !strings.Contains(c.Setup+c.OpSrc, bMark) && !listingOp(c.Op) {
+		for _, v := range visible {
+			if strings.Contains(v, needle) {
+				real = append(real, fmt.Sprintf("real-cwd-visible: %q", mon.Truncate(v, 200)))
 				break
 			}
 		}
@@ -501,7 +525,7 @@ func judge(d *mon.Driver, c *CaseData, o *Out, ext []string, called map[string]i
 	} else {
 		d.Event("cases_pure_no_os_call", 1)
 	}
-	if c.Kind == "recipe" && o.NEv > 0 && (c.Ctx == "clone" || c.Ctx == "go" || c.Ctx == "module") {
+	if c.Kind == "recipe" && o.NEv > 0 && (c.Ctx == "clone" || c.Ctx == "go" || c.Ctx == "module" || strings.HasPrefix(c.Ctx, "late-")) {
 		d.Sample(map[string]any{"op": c.Op, "variant": c.Variant, "ctx": c.Ctx, "route": c.Route, "op_src": c.OpSrc,
 			"result": mon.Truncate(o.Result, 120), "err": o.Err, "events": o.Evs, "virtual_state_changes": o.Diff})
 	}
